@@ -79,3 +79,11 @@ func raceSig(rep string) string {
 	sort.Strings(fns)
 	return strings.Join(fns, "|")
 }
+
+// libraryRace reports whether a race report involves the code under test at
+// all.  A report whose stacks contain only harness / simulator frames is a bug
+// of the machinery (exit 2), never a violation of the library.
+func libraryRace(rep string) bool {
+	return strings.Contains(rep, "safehtml/template.") || strings.Contains(rep, "text/template.") ||
+		strings.Contains(rep, "text/template/parse.") || strings.Contains(rep, "google/safehtml.")
+}
